@@ -302,7 +302,11 @@ func dominatesOnBranch(fn *ssa.Function, field string, via []ssa.CallInstruction
 }
 
 func c08R3(c *Ctx, id string) {
-	c.rule(id, "allocate-no-error-after-effect", 3, func() {
+	c.rule(id, "allocate-no-error-after-effect", 3, func() { c08R3body(c, id) })
+}
+
+func c08R3body(c *Ctx, id string) {
+	{
 		da := c.fn("bbolt.(*DB).allocate")
 		sp := plainCallsIn(da, "common.(*Meta).SetPgid")
 		bad := ""
@@ -392,7 +396,7 @@ func c08R3(c *Ctx, id string) {
 			}
 		}
 		c.check(id+":(*DB).allocate:maxsize-before-mmap", da, da.Pos(), "ErrMaxSizeReached is returned before db.mmap and before SetPgid, under a comparison with db.MaxSize", ok3, detail)
-	})
+	}
 }
 
 func c08R4(c *Ctx, id string) {
